@@ -39,11 +39,11 @@ use poulpy_bin_fhe::blind_rotation::CGGI;
 use poulpy_core::EncryptionLayout;
 use poulpy_core::api::*;
 use poulpy_core::layouts::{
-    Base2K, Degree, GGSW, GGSWInfos, GLWE, GLWEInfos, GLWELayout, GLWEPlaintext, GLWEPlaintextLayout, GLWEToRef, LWE, LWEInfos,
-    LWELayout, LWEPlaintext, TorusPrecision,
+    Base2K, Degree, GGSW, GGSWLayout, GLWE, GLWEInfos, GLWEPlaintext, GLWEPlaintextLayout, GLWESecretPrepared, GLWEToRef, LWE,
+    LWEInfos, LWELayout, LWEPlaintext, TorusPrecision,
 };
 use poulpy_hal::api::{ScratchOwnedAlloc, ScratchOwnedBorrow};
-use poulpy_hal::layouts::{DataView, DeviceBuf, ScalarZnx, ScratchOwned, ZnxViewMut};
+use poulpy_hal::layouts::{DataView, DeviceBuf, Module, ScalarZnx, ScratchOwned, ZnxViewMut};
 use poulpy_hal::source::Source;
 use poulpy_verif_harness::rec::*;
 use std::collections::HashMap;
@@ -411,6 +411,10 @@ macro_rules! backend_impl {
                 let (cbt, ks_glwe, ks_lwe) = ctx.bdd_key.get_cbt_key();
                 let q = if expo { 6 } else { 5 };
                 assert_eq!((ps[q] as usize, ps[q + 1] as usize, ps[q + 2] as usize), (l.base2k.as_usize(), l.dnum.as_usize(), l.rank.as_usize()), "parameter set changed");
+                {
+                    use poulpy_bin_fhe::bdd_arithmetic::BDDKeyInfos;
+                    assert_eq!(ps[q + 3] as usize, ctx.bdd_key.cbt_infos().brk_layout.base2k.as_usize(), "parameter set changed (brk radix)");
+                }
                 let mut ggsw: GGSW<Vec<u8>> = GGSW::alloc_from_infos(&l);
                 let run = |lwe: &LWE<Vec<u8>>, ggsw: &mut GGSW<Vec<u8>>| {
                     if expo { cbt.execute_to_exponent(&ctx.module, log_gap_out, ggsw, lwe, ld, 1, scr().borrow()); }
@@ -433,6 +437,13 @@ macro_rules! backend_impl {
                     ctx.module.lwe_encrypt_sk(&mut lwe, &pt, &ctx.sk_lwe, &e, &mut Source::new(seed32(2, seed)), &mut Source::new(seed32(3, seed)), scr().borrow());
                     run(&lwe, &mut ggsw);
                 }
+                observe_ggsw(code, &ctx.module, &ctx.sk_glwe, &ggsw, &l, expo, ld, log_gap_out)
+            }
+
+            /// every cell (row, col) classified by GGSW::noise against every candidate message; column 0 decrypted and decoded
+            fn observe_ggsw(code: i64, module: &Module<BE>, sk: &GLWESecretPrepared<DeviceBuf<BE>, BE>, ggsw: &GGSW<Vec<u8>>,
+                            l: &GGSWLayout, expo: bool, ld: usize, log_gap_out: usize) -> Vec<Vec<i128>> {
+                let n = module.n();
                 let b2k = l.base2k.as_usize();
                 let cand = 1usize << ld;
                 let mut obs = Vec::new();
@@ -445,7 +456,7 @@ macro_rules! backend_impl {
                             let mut pw: ScalarZnx<Vec<u8>> = ScalarZnx::alloc(n, 1);
                             if expo { pw.at_mut(0, 0)[(j << log_gap_out) % n] = if ((j << log_gap_out) / n) % 2 == 0 { 1 } else { -1 }; }
                             else { pw.at_mut(0, 0)[0] = j as i64; }
-                            let e = ggsw.noise(&ctx.module, row, col, &pw, &ctx.sk_glwe, scr().borrow()).max().log2();
+                            let e = ggsw.noise(module, row, col, &pw, sk, scr().borrow()).max().log2();
                             if e < thr { hits += 1; }
                             if e < best.0 { best = (e, j as i128); }
                         }
@@ -453,22 +464,74 @@ macro_rules! backend_impl {
                         obs.push(if hits == 1 && best.0 < thr { best.1 } else { -1 - hits as i128 });
                     }
                 }
-                // column 0 decrypted and decoded at the precision of its gadget row: which coefficients are non-zero
                 let mut sparse = Vec::new();
                 for row in 0..l.dnum.as_usize() {
                     let cell = ggsw.at(row, 0);
-                    let mut pt: GLWEPlaintext<Vec<u8>> = GLWEPlaintext::alloc_from_infos(&l);
-                    ctx.module.glwe_decrypt(&cell, &mut pt, &ctx.sk_glwe, scr().borrow());
-                    let mut d = vec![0i64; n];
-                    pt.decode_vec_i64(&mut d, TorusPrecision((b2k * (row + 1)) as u32));
-                    let m = 1i64 << (b2k * (row + 1));
+                    let mut pt: GLWEPlaintext<Vec<u8>> = GLWEPlaintext::alloc_from_infos(l);
+                    module.glwe_decrypt(&cell, &mut pt, sk, scr().borrow());
+                    let mut d = vec![0i128; n];
+                    pt.decode_vec_i128(&mut d, TorusPrecision((b2k * (row + 1)) as u32));
+                    let m = 1i128 << (b2k * (row + 1));
                     for (i, v) in d.iter().enumerate() {
                         let v = v.rem_euclid(m);
                         let v = if v >= m / 2 { v - m } else { v };
-                        if v != 0 { sparse.extend([row as i128, i as i128, v as i128]); }
+                        if v != 0 { sparse.extend([row as i128, i as i128, v]); }
                     }
                 }
                 vec![obs, sparse]
+            }
+
+            /// 15062: circuit bootstrapping at a parameter set of its own (keys generated per record):
+            /// ps = [be, logn, expo, msg, ld, lgo, res_base2k, dnum, rank, brk_base2k, seed]
+            fn cbt_custom(r: &Rec) -> Vec<Vec<i128>> {
+                use poulpy_bin_fhe::blind_rotation::BlindRotationKeyLayout;
+                use poulpy_bin_fhe::circuit_bootstrapping::{
+                    CircuitBootstrappingEncryptionInfos, CircuitBootstrappingKey, CircuitBootstrappingKeyLayout, CircuitBootstrappingKeyPrepared,
+                };
+                use poulpy_core::layouts::{Dnum, Dsize, GGLWEToGGSWKeyLayout, GLWEAutomorphismKeyLayout, GLWESecret, GLWESecretPreparedFactory, LWESecret, Rank};
+                use poulpy_hal::api::ModuleNew;
+                let ps = &r.ps;
+                let seed = *ps.last().unwrap() as u64;
+                let (logn, expo, msg, ld, lgo) = (ps[1] as usize, ps[2] != 0, ps[3] as i64, ps[4] as usize, ps[5] as usize);
+                let (rb, dnum, rank, bb) = (ps[6] as usize, ps[7] as usize, ps[8] as usize, ps[9] as usize);
+                let n = 1usize << logn;
+                let module: Module<BE> = Module::<BE>::new(n as u64);
+                let (n_lwe, block) = (77usize, 7usize);
+                let k_res = (dnum + 1) * rb;
+                let rows = |k: usize, b: usize| k.div_ceil(b);
+                let (tb, ab) = (12usize, 11usize);
+                let cbt_infos = CircuitBootstrappingKeyLayout {
+                    brk_layout: BlindRotationKeyLayout { n_glwe: Degree(n as u32), n_lwe: Degree(n_lwe as u32), base2k: Base2K(bb as u32),
+                        k: TorusPrecision(((rows(k_res, bb) + 1) * bb) as u32), dnum: Dnum(rows(k_res, bb) as u32), rank: Rank(rank as u32) },
+                    atk_layout: GLWEAutomorphismKeyLayout { n: Degree(n as u32), base2k: Base2K(ab as u32),
+                        k: TorusPrecision(((rows(k_res, ab) + 1) * ab) as u32), dnum: Dnum(rows(k_res, ab) as u32), rank: Rank(rank as u32), dsize: Dsize(1) },
+                    tsk_layout: GGLWEToGGSWKeyLayout { n: Degree(n as u32), base2k: Base2K(tb as u32),
+                        k: TorusPrecision(((rows(k_res, tb) + 1) * tb) as u32), dnum: Dnum(rows(k_res, tb) as u32), dsize: Dsize(1), rank: Rank(rank as u32) },
+                };
+                let l = GGSWLayout { n: Degree(n as u32), base2k: Base2K(rb as u32), k: TorusPrecision(k_res as u32), dnum: Dnum(dnum as u32), dsize: Dsize(1), rank: Rank(rank as u32) };
+                let mut scratch: ScratchOwned<BE> = ScratchOwned::alloc(1 << 25);
+                let mut xs = Source::new(seed32(11, seed));
+                let mut sk_lwe: LWESecret<Vec<u8>> = LWESecret::alloc(Degree(n_lwe as u32));
+                sk_lwe.fill_binary_block(block, &mut xs);
+                let mut sk_glwe: GLWESecret<Vec<u8>> = GLWESecret::alloc(Degree(n as u32), Rank(rank as u32));
+                sk_glwe.fill_ternary_prob(0.5, &mut xs);
+                let mut sk_prep: GLWESecretPrepared<DeviceBuf<BE>, BE> = module.glwe_secret_prepared_alloc(Rank(rank as u32));
+                module.glwe_secret_prepare(&mut sk_prep, &sk_glwe);
+                let li = LWELayout { n: Degree(n_lwe as u32), k: TorusPrecision(22), base2k: Base2K(14) };
+                let mut pt: LWEPlaintext<Vec<u8>> = LWEPlaintext::alloc(Base2K(14), TorusPrecision(ld as u32 + 1));
+                pt.encode_i64(msg, TorusPrecision(ld as u32 + 1));
+                let e = EncryptionLayout::new_from_default_sigma(li).unwrap();
+                let mut lwe: LWE<Vec<u8>> = LWE::alloc_from_infos(&li);
+                module.lwe_encrypt_sk(&mut lwe, &pt, &sk_lwe, &e, &mut Source::new(seed32(2, seed)), &mut Source::new(seed32(3, seed)), scratch.borrow());
+                let mut key: CircuitBootstrappingKey<Vec<u8>, CGGI> = CircuitBootstrappingKey::alloc_from_infos(&cbt_infos);
+                let enc = CircuitBootstrappingEncryptionInfos::from_default_sigma(&cbt_infos).unwrap();
+                key.encrypt_sk(&module, &sk_lwe, &sk_glwe, &enc, &mut Source::new(seed32(12, seed)), &mut Source::new(seed32(13, seed)), scratch.borrow());
+                let mut kp: CircuitBootstrappingKeyPrepared<DeviceBuf<BE>, CGGI, BE> = CircuitBootstrappingKeyPrepared::alloc_from_infos(&module, &cbt_infos);
+                kp.prepare(&module, &key, scratch.borrow());
+                let mut ggsw: GGSW<Vec<u8>> = GGSW::alloc_from_infos(&l);
+                if expo { kp.execute_to_exponent(&module, lgo, &mut ggsw, &lwe, ld, 1, scratch.borrow()); }
+                else { kp.execute_to_constant(&module, &mut ggsw, &lwe, ld, 1, scratch.borrow()); }
+                observe_ggsw(r.code, &module, &sk_prep, &ggsw, &l, expo, ld, lgo)
             }
 
             pub fn kernel(r: &Rec) -> Vec<Vec<i128>> {
@@ -476,7 +539,14 @@ macro_rules! backend_impl {
                     15002..=15013 => { let bits = r.ps[2]; with_ty!(bits, T, { layout_ops::<T>(r) }) }
                     15021..=15031 | 15040 => word_ops(r),
                     15050..=15054 => blind_ops(r),
+                    15055 => {
+                        // as 15053, a panic of the retriever is reported as the value -1 (so that the oracle sees it)
+                        let mut r2 = r.clone();
+                        r2.code = 15053;
+                        match std::panic::catch_unwind(move || blind_ops(&r2)) { Ok(v) => v, Err(_) => vec![vec![-1]] }
+                    }
                     15060 | 15061 => cbt_ops(r),
+                    15062 => cbt_custom(r),
                     _ => panic!("c15: unknown code {}", r.code),
                 }
             }
@@ -499,7 +569,7 @@ fn bit_index_table(bits: i128) -> Vec<Vec<i128>> {
 
 fn kernel(r: &Rec) -> Vec<Vec<i128>> {
     if r.code == 15001 { return bit_index_table(r.ps[0]); }
-    assert_eq!(r.ps[1], 8, "log_n of the test parameter set");
+    if r.code != 15062 { assert_eq!(r.ps[1], 8, "log_n of the test parameter set"); }
     match r.ps[0] {
         1 => fft64_ref::kernel(r),
         2 => fft64_avx::kernel(r),
@@ -704,16 +774,34 @@ pub fn generate(tier: &str, seed: u64) -> Vec<Rec> {
     // circuit bootstrapping: both bit values, both routes, constant and exponent mode, every GGSW cell
     for rep in 0..(if thorough { 16 } else { 3 }) {
         for route in [0i128, 1] { for msg in [0i128, 1] {
-            out.push(Rec::new(15060, vec![if rep == 0 { 1 } else { 2 }, 8, route, msg, 1, 13, 2, 2, sd()], vec![]));
+            out.push(Rec::new(15060, vec![if rep == 0 { 1 } else { 2 }, 8, route, msg, 1, 13, 2, 2, 12, sd()], vec![]));
             for lgo in [0i128, 1, 3, 7] {
                 if !thorough && rep > 0 && lgo % 2 == 1 { continue; }
-                out.push(Rec::new(15061, vec![2, 8, route, msg, 1, lgo, 13, 2, 2, sd()], vec![]));
+                out.push(Rec::new(15061, vec![2, 8, route, msg, 1, lgo, 13, 2, 2, 12, sd()], vec![]));
             }
         } }
         for msg in 0..4i128 {
-            out.push(Rec::new(15060, vec![2, 8, 1, msg, 2, 13, 2, 2, sd()], vec![]));
-            out.push(Rec::new(15061, vec![2, 8, 1, msg, 2, [6i128, 0, 2, 4, 1, 5][rep % 6], 13, 2, 2, sd()], vec![]));
+            out.push(Rec::new(15060, vec![2, 8, 1, msg, 2, 13, 2, 2, 12, sd()], vec![]));
+            out.push(Rec::new(15061, vec![2, 8, 1, msg, 2, [6i128, 0, 2, 4, 1, 5][rep % 6], 13, 2, 2, 12, sd()], vec![]));
         }
+    }
+    // the streaming retriever allocated for a single input (a panic is reported as the value -1)
+    for i in 0..(if thorough { 6 } else { 3 }) {
+        out.push(Rec::new(15055, vec![2, 8, 1, rng.range(0, 31) as i128, (i % 2) as i128, sd()], vec![vec![word(&mut rng, 32)], vec![word(&mut rng, 32)]]));
+        out.push(Rec::new(15055, vec![2, 8, 2, rng.range(0, 31) as i128, 0, sd()], vec![vec![word(&mut rng, 32)], vec![word(&mut rng, 32)]]));
+    }
+    // circuit bootstrapping at parameter sets of its own: the test set again, then gadgets whose lookup-table
+    // coefficients reach the top of i64 (ps = [be, logn, expo, msg, ld, lgo, res_base2k, dnum, rank, brk_base2k, seed])
+    for msg in [0i128, 1] {
+        out.push(Rec::new(15062, vec![2, 8, 0, msg, 1, 0, 13, 2, 2, 13, sd()], vec![]));
+        out.push(Rec::new(15062, vec![2, 8, 0, msg, 1, 0, 21, 4, 1, 14, sd()], vec![]));   // 1 << 63
+        out.push(Rec::new(15062, vec![2, 8, 0, msg, 1, 0, 20, 4, 1, 14, sd()], vec![]));   // 2^60 * scale 2^4
+        out.push(Rec::new(15062, vec![2, 8, 0, msg, 1, 0, 20, 3, 1, 15, sd()], vec![]));   // 2^40: no overflow
+        out.push(Rec::new(15062, vec![2, 8, 1, msg, 1, 0, 21, 4, 1, 14, sd()], vec![]));   // rejected by the assert
+        out.push(Rec::new(15062, vec![2, 8, 1, msg, 1, 2, 20, 3, 1, 15, sd()], vec![]));
+    }
+    for msg in (if thorough { vec![0i128, 3, 7, 8, 12, 15] } else { vec![7i128, 8] }) {
+        out.push(Rec::new(15062, vec![2, 10, 0, msg, 4, 0, 30, 3, 1, 15, sd()], vec![]));  // j * 2^60
     }
     out
 }
